@@ -93,6 +93,30 @@ def swap_coverage(m, f, _depth=0):
         if n is not None:
             covered.append((off, off + n))
             cover_ins.append(((off, off + n), c))
+    # exchange by whole-structure assignment through a temporary: t = *a; *a = *b; *b = t  (three block copies)
+    cps = []
+    for c in f.all_insts():
+        if c.op == 'call' and (c.callee or '').startswith(('llvm.memcpy', 'llvm.memmove')) and len(c.o) >= 3 and const_int(c.o[2]) is not None:
+            d_, s_ = resolve_addr(f, c.o[0]), resolve_addr(f, c.o[1])
+            dr = strip_bitcasts(f, d_.root) if isinstance(d_.root, str) else d_.root
+            sr = strip_bitcasts(f, s_.root) if isinstance(s_.root, str) else s_.root
+            cps.append((dr, d_.coff, sr, s_.coff, const_int(c.o[2]), c))
+
+    def _is_tmp(r):
+        ri = f.get(r) if isinstance(r, str) else None
+        return ri is not None and ri.op == 'alloca'
+    for (d1, do1, s1, so1, n1, c1) in cps:
+        if not (_is_tmp(d1) and s1 in ('$0', '$1') and so1 is not None):
+            continue
+        first, second = s1, ('$1' if s1 == '$0' else '$0')
+        for (d2, do2, s2, so2, n2, c2) in cps:
+            if not (d2 == first and s2 == second and do2 == so1 and so2 == so1 and n2 == n1 and f.dominates(c1, c2)):
+                continue
+            for (d3, do3, s3, so3, n3, c3) in cps:
+                if d3 == second and s3 == d1 and do3 == so1 and n3 == n1 and f.dominates(c2, c3):
+                    covered.append((so1, so1 + n1))
+                    cover_ins.append(((so1, so1 + n1), c2))
+                    cover_ins.append(((so1, so1 + n1), c3))
     # member-by-member exchange through typed temporaries: a.f := (old b.f) and b.f := (old a.f)
     def ty_size(ty):
         ty = (ty or '').strip()
